@@ -248,6 +248,10 @@ pub struct Style {
     pub list_break: bool,       // line breaks inside list literals / filters
     pub in_upper: bool,
     pub opneg_bang: bool,       // operator-level negation written "!exists" (true) or "not exists" (false)
+    pub eol_comment: bool,      // `# c` at the end of every line
+    pub comment_lines: bool,    // a comment line between lines
+    pub filter_break: bool,     // line break after `[` and before `]` of a filter
+    pub crlf: bool,             // \r\n line ends
     pub slots: std::cell::Cell<usize>, // slot counter (filled while printing)
 }
 pub const KW_WHEN: u32 = 1;
@@ -279,6 +283,10 @@ impl Default for Style {
             list_break: false,
             in_upper: false,
             opneg_bang: true,
+            eol_comment: false,
+            comment_lines: false,
+            filter_break: false,
+            crlf: false,
             slots: std::cell::Cell::new(0),
         }
     }
@@ -315,9 +323,18 @@ impl<'a> Printer<'a> {
         if self.st.trailing_ws {
             self.out.push_str("  ");
         }
+        if self.st.eol_comment {
+            self.out.push_str(" # c");
+        }
+        if self.st.crlf {
+            self.out.push('\r');
+        }
         self.out.push('\n');
         if self.st.blank_lines {
             self.out.push('\n');
+        }
+        if self.st.comment_lines {
+            self.out.push_str("# a comment line\n");
         }
         for _ in 0..depth {
             self.out.push_str(self.st.indent);
@@ -378,9 +395,15 @@ impl<'a> Printer<'a> {
                 }
                 Part::Filter(c) => {
                     self.out.push('[');
+                    if self.st.filter_break {
+                        self.out.push_str("\n    ");
+                    }
                     self.slot(" ");
                     self.cnf_inline(c);
                     self.slot(" ");
+                    if self.st.filter_break {
+                        self.out.push_str("\n  ");
+                    }
                     self.out.push(']');
                 }
                 Part::KeysFilter(not, op, v) => {
